@@ -188,6 +188,47 @@ def replay (crc : List Nat → Nat) (de : List Nat → Option Entry) (bytes : Li
 def fileOf (crc : List Nat → Nat) (ser : Entry → List Nat) (es : List Entry) : List Nat :=
   encodeAll crc (es.map ser)
 
+/-! ### which frames the two sides accept
+
+  `TxWal::append` (tx_wal.rs:317) writes the record of an entry as ONE frame
+  `[len as u32][crc][payload]` whatever the payload's length: the write side has no per-record
+  limit, only the limit on the size of the whole file (`walApp` below).  `replay_with_validation`
+  (tx_wal.rs:400, `parse` above) reads `len` and allocates / reads exactly that many bytes: the
+  read side has no per-record limit either.  Both sides therefore agree on every payload length
+  the 4-byte length field can hold — a `TxBegin` over tens of thousands of participant shards or
+  an `AbortIntent` for them (hundreds of KB) is written AND replayed.
+
+  `parseCapped` / `replayCapped` are NOT the code: they are the variant in which the read side
+  alone refuses frames whose length prefix exceeds `cap` ("a garbage header: stop as for a torn
+  tail"), kept only for the contrast theorems and the `…_witness` of `PropsReplay.lean`.
+  Structural recursion on a fuel argument (the bytes left), so it evaluates under `decide`. -/
+
+def parseCappedAux (cap : Nat) (crc : List Nat → Nat) (decodable : List Nat → Bool) :
+    Nat → List Nat → List (List Nat) × PEnd
+  | 0, bs => ([], if bs.isEmpty then .clean else .torn)
+  | fuel + 1, bs =>
+    if bs.length < 8 then ([], if bs.isEmpty then .clean else .torn) else
+      let len := de32 (bs.take 4)
+      if cap < len then ([], .torn) else       -- the read-side limit: `break`
+      let c := de32 ((bs.drop 4).take 4)
+      let body := bs.drop 8
+      if body.length < len then ([], .torn) else
+        let p := body.take len
+        if c ≠ 0 ∧ c ≠ crc p then ([], .badCrc) else
+        if !decodable p then ([], .undecodable) else
+          let r := parseCappedAux cap crc decodable fuel (body.drop len)
+          (p :: r.1, r.2)
+
+def parseCapped (cap : Nat) (crc : List Nat → Nat) (decodable : List Nat → Bool) (bs : List Nat) :
+    List (List Nat) × PEnd :=
+  parseCappedAux cap crc decodable (bs.length + 1) bs
+
+/-- `replay` with the read-side frame-length limit `cap` (see above: not the code) -/
+def replayCapped (cap : Nat) (crc : List Nat → Nat) (de : List Nat → Option Entry) (bytes : List Nat) :
+    Option (List Entry) :=
+  let r := parseCapped cap crc (fun p => (de p).isSome) bytes
+  if r.2 = PEnd.badCrc then none else some (r.1.filterMap de)
+
 /-! ## coordinator (distributed_tx.rs) -/
 
 /-- in-memory `PrepareVote` (the `delta` of a YES vote is abstracted into the conflict bit) -/
@@ -541,6 +582,12 @@ def restartLogOld (cfg : Cfg) (es : List Entry) (now : Nat) : Coord :=
 def restartBytes (crc : List Nat → Nat) (de : List Nat → Option Entry) (cfg : Cfg)
     (bytes : List Nat) (now : Nat) : Option Coord :=
   (replay crc de (openRepair bytes)).map (fun es => restartLog cfg es now)
+
+/-- the restart of the variant whose replay refuses frames longer than `cap` (`replayCapped`: not
+    the code).  `TxWal::open` is unchanged in that variant: it repairs and counts by headers only. -/
+def restartBytesCapped (cap : Nat) (crc : List Nat → Nat) (de : List Nat → Option Entry) (cfg : Cfg)
+    (bytes : List Nat) (now : Nat) : Option Coord :=
+  (replayCapped cap crc de (openRepair bytes)).map (fun es => restartLog cfg es now)
 
 /-! ## runs -/
 
